@@ -280,6 +280,36 @@ def break_hangul_search(ctx, shim, r, nfonts, per_font, pc, pt):
                        groups=groups, make=lambda r, g, fl, k: HF.make_hangul_shaping(r, g, fl), classify=HF.hangul_known_class)
 
 
+def promote_hangul_pre_flags(ctx, shim, dis, limit):
+    """the disagreeing hangul-pre-flags requests themselves as shape() inputs of the break-safety verifier"""
+    import hangulflags as HF
+    if not dis:
+        ctx.note_search("promoted-hangul-pre-flags", 0, 0, rule="no hangul-pre-flags disagreement to promote in this run")
+        return
+    sh = HF.promoted_shapings(dis, limit)
+    res = F.verify_break(shim, sh)
+    stat, bad = {}, []
+    for s, o in zip(sh, res):
+        stat[o["status"]] = stat.get(o["status"], 0) + 1
+        if o["status"] == "DIFF":
+            bad.append((len(s.text), s, o))
+    bad.sort(key=lambda x: x[0])
+    for _, s, o in bad[:3]:
+        rp = s.describe()
+        d = s.g["from_correspondence"]
+        rp.update({"stage": "search", "stream": "break-promoted-hangul-pre-flags", "pieces_text_ranges": o.get("pieces"),
+                   "piece_requests": o.get("piece_requests"), "whole": F.fmt_glyphs(o.get("whole") or []),
+                   "pieces_reassembled": F.fmt_glyphs(o.get("recon") or []), "difference": o.get("diff"),
+                   "from_correspondence": d["request"], "impl": d["impl"], "model": d["model"]})
+        ctx.violation(f"breaking at unflagged cluster starts changes the result (promoted hangul-pre-flags disagreement): "
+                      f"{o.get('diff')} — font {s.g['reg'].split()[3]} text {' '.join(rp['text'])} clusters {s.clusters} "
+                      f"level={s.level}; {len(bad)} of {len(sh)} promoted requests differ", rp)
+    ctx.note_search("promoted-hangul-pre-flags", len(sh), stat.get("ok", 0) + stat.get("DIFF", 0), outcome=stat, deviations=len(bad),
+                    rule="every hangul-pre-flags request on which crate and model disagree (shortest first, capped): its text on the "
+                         "font of its support spec through shape() and the break-safety verifier (cut at all unflagged cluster "
+                         "starts, re-shape, compare); nothing is assumed about why the two disagreed")
+
+
 def gsub_flag_groups(ctx, shim, r, nfonts, per_font):
     """request groups of the `gsub` command (the GSUB interpreter of the crate through its hook vs the Lean model Gsub.lean,
     which contains every unsafe_to_break / unsafe_to_concat call site of the interpreter and delete_glyph / merge_clusters of
@@ -410,7 +440,7 @@ def run(ctx):
     # the Hangul shaper's text pre-processing on the buffer model, masks included (HangulBuf.lean; theorems
     # C03_hangul_decomposition_flagged, C03_hangul_conjoining_flagged, C03_hangul_tone_flagged)
     import hangulflags as HF
-    ctx.correspond("hangul-pre-flags", lines=HF.pre_flag_lines(ctx.rng("hangul-pre-flags"), ctx.budget(6000, 200000)),
+    hdis = ctx.correspond("hangul-pre-flags", lines=HF.pre_flag_lines(ctx.rng("hangul-pre-flags"), ctx.budget(6000, 200000)),
                    classify=HF.classify_pre_flags, canon=lambda x: "panic" if x.startswith("panic") else x)
     import _gposflag as GF
     rg = ctx.rng("gpos-flags")
@@ -433,6 +463,7 @@ def run(ctx):
     break_fraction_search(ctx, shim, ctx.rng("break-fraction"), ctx.budget(20, 300), ctx.budget(20, 60), pc, pt)
     break_di_search(ctx, shim, ctx.rng("break-di"), ctx.budget(150, 3000), 16, pc, pt)
     break_syllabic_search(ctx, shim, ctx.rng("break-syllabic"), ctx.budget(240, 4000), 16, pc, pt)
+    promote_hangul_pre_flags(ctx, shim, hdis, ctx.budget(80, 400))
     break_hangul_search(ctx, shim, ctx.rng("break-hangul"), ctx.budget(150, 3000), 16, pc, pt)
     break_stch_search(ctx, shim, ctx.rng("break-stch"), ctx.budget(100, 2000), 12, pc, pt)
     break_search(ctx, shim, ctx.rng("break-ot"), ctx.budget(60, 1200), pc, pt, False, "break-safety-ot")
